@@ -38,13 +38,16 @@ def qr_r_jvp(primals, tangents):
         return R, R_dot_singular
 
     # Where R is regular, use the derivative of the QR decomposition:
-    # R_dot = (X - Omega) R with X = Q^\top M_dot R^{-1} and the skew-symmetric
-    # Omega = L - L^\top, L = strictly-lower(X), which keeps R_dot triangular.
+    # R_dot = Q^\top M_dot - Omega R with the skew-symmetric Omega = L - L^\top,
+    # L = strictly-lower(X), X = Q^\top M_dot R^{-1}. This is (X - Omega) R,
+    # but it never multiplies X by R: for tiny pivots (a nearly rank-deficient M)
+    # the entries of X are huge, and X @ R would lose every digit.
+    # The result is upper triangular; triu() only removes rounding residue.
     is_regular = jnp.all(jnp.diagonal(R) != 0.0)
     R_safe = jnp.where(is_regular, R, jnp.eye(*R.shape, dtype=R.dtype))
     X = jax.scipy.linalg.solve_triangular(R_safe.T, R_dot_singular.T, lower=True).T
     L = jnp.tril(X, -1)
-    R_dot_regular = (X - L + L.T) @ R_safe
+    R_dot_regular = jnp.triu(R_dot_singular - (L - L.T) @ R_safe)
 
     R_dot = jnp.where(is_regular, R_dot_regular, R_dot_singular)
     return R, R_dot
